@@ -105,3 +105,27 @@ def csv_column_name_with_double_quote(rec):
     if rec.get("property") != "C13" or not rec.get("what", "").startswith("F-C13h:"):
         return False
     return any('"' in str(nm) for nm, _, _ in _cols(rec))
+
+
+def table_integer_difference_beyond_double(rec):
+    """F-C14b: diff_to of two TABLES whose integer-typed columns (not uint64) differ by more than 2^53 in an entry: the result
+    column is double precision, so that entry is the nearest double of the exact difference.  Only this input class: a table case,
+    and some integer column pair of the recorded case has an exact difference that is no double."""
+    if rec.get("property") != "C14" or not rec.get("what", "").startswith("F-C14b:"):
+        return False
+    c = rec.get("case") or {}
+    if c.get("kind") != "table":
+        return False
+    dts = c.get("dtypes", {})
+    S, R = dict(c.get("src", [])), dict(c.get("ref_stored", c.get("ref", [])))
+    ints = ("i8", "i4", "i1", "u1", "u2")
+    for n in S:
+        if n in R and dts.get("src", {}).get(n) in ints and dts.get("ref", {}).get(n) in ints:
+            for a, b in zip(S[n], R[n]):
+                try:
+                    d = int(b) - int(a)
+                except (TypeError, ValueError):
+                    continue
+                if int(float(d)) != d:
+                    return True
+    return False
